@@ -474,6 +474,25 @@ theorem C11_texinfo (vit : Bool) (fold : Nat → Nat) (tdv : Nat → TexDataV) (
   obtain ⟨rs, h1, h2, _⟩ := texinfo_roundtrip vit fold tdv textures final infos h16 hfin
   exact ⟨rs, h1, h2⟩
 
+/-- **Overlays + OVERLAY_FADES + OVERLAY_SYSTEM_LEVELS.** At most `maxFaces` (64) faces — more are
+rejected —, the render order shares a field with the face count. -/
+theorem C11_overlays (texinfo final : List Nat) (os : List OverlayV) (rs fs ls : List (List Val)) (f' : IdFinder)
+    (h : writeOverlays overlayFaceCount (Finder.mk' idKey texinfo) os = .ok (rs, fs, ls, f')) (hfin : f'.list <+: final) :
+    readOverlays overlayFaceCount final rs fs ls = .ok os :=
+  (overlays_roundtrip overlayFaceCount (by decide) texinfo final os rs fs ls f' h hfin).1
+
+theorem C11_overlays_too_many_faces (f : IdFinder) (o : OverlayV) (os : List OverlayV)
+    (h : overlayFaceCount < o.faces.length) : writeOverlays overlayFaceCount f (o :: os) = .error .tooLong := by
+  simp [writeOverlays, h]
+
+/-- **Surfedges + edges.** -/
+theorem C11_surfedges (isZero : Nat → Bool) (fresh dummy : Nat) (ed : Nat → Nat × Nat) (verts final : List Nat)
+    (ss : List SurfEdgeV) (hne : ∀ s ∈ ss, s.edge ≠ dummy)
+    (hfin : (writeSurfedges isZero fresh dummy ed verts ss).2.2 <+: final) :
+    readSurfedges final (writeSurfedges isZero fresh dummy ed verts ss).1 (writeSurfedges isZero fresh dummy ed verts ss).2.1
+      = .ok (ss.map (orient ed)) :=
+  (surfedges_roundtrip isZero fresh dummy ed verts final ss hne hfin).1
+
 /-- the records of brushes, sides, leafs and nodes have the shapes `C11_gen_xref_shapes` speaks about
 (so `C11_lump_bytes` applies to them) -/
 theorem C11_xref_record_shapes (vit : Bool) (sd : Nat → SideV) (t : BrushTabs) (bs : List BrushV)
